@@ -65,6 +65,25 @@ Theorem C09_rotation_chain_tiles : forall now w fires, 0 <= w < 7 -> fires_on_ti
   end.
 Proof. exact chain_tiles. Qed.
 Print Assumptions C09_rotation_chain_tiles.
+(* The delay the timer is armed with - until the recorded end, at least one
+   minute -: due never before the end, exactly at it when it is at least the
+   minimum away, and less than the minimum after it otherwise. *)
+Theorem C09_timer_due_at_end : forall mn now e, 0 < mn -> now < e ->
+  e <= now + timer_delay mn now e /\
+  (mn <= e - now -> now + timer_delay mn now e = e) /\
+  now + timer_delay mn now e < e + mn.
+Proof. exact timer_due. Qed.
+Print Assumptions C09_timer_due_at_end.
+(* Hence a process that lives n weeks beyond its first file, each timer firing
+   when due: n+1 files, the first of the opening time's span, the others whole
+   weeks, each beginning at its predecessor's recorded end. *)
+Theorem C09_self_timed_process_tiles : forall n now w, 0 <= w < 7 ->
+  match timer_chain now w (self_timed n now w) with
+  | [] => False
+  | s :: r => s = counter_span now w /\ tiles (snd s) r /\ List.length r = n
+  end.
+Proof. exact self_timed_tiles. Qed.
+Print Assumptions C09_self_timed_process_tiles.
 Theorem C09_rotation_chain_length : forall now w fires, List.length (timer_chain now w fires) = S (List.length fires).
 Proof. exact chain_length. Qed.
 Print Assumptions C09_rotation_chain_length.
